@@ -682,3 +682,36 @@ package mapping
 //@ func settableOrAllocated
 //@   prop C05
 //@   ensures [only-an-unsettable-nil-pointer-cannot] result == !(tkind(fieldType.tag, fieldType.val) == 22 && ret(value.IsNil) && !ret(value.CanSet))
+
+// ---- client-side validation before a request struct is sent (marshaler.go) ----
+// validate: a field that is not optional must be set (pointers, lists, maps); an optional field left at its zero
+// value is not validated further; otherwise options= and range= are enforced - so the client refuses to send what
+// the server would refuse to accept.
+//@ func validate
+//@   prop C05
+//@   opaque validateOptional, validateOptions, validateRange
+//@   let required = opt == nil || !opt.Optional
+//@   ensures [required-fields-must-be-set] required ==> calls(validateOptional, field, value) == 1 && (ret(validateOptional) != nil ==> result == ret(validateOptional) && calls(validateOptions) + calls(validateRange) == 0)
+//@   ensures [optional-fields-not-checked-for-presence] !required ==> calls(validateOptional) == 0
+//@   ensures [untagged-options-nothing-more] opt == nil && ret(validateOptional) == nil ==> result == nil
+//@   ensures [unset-optional-not-validated] opt != nil && opt.Optional && ret(value.IsZero) ==> result == nil && calls(validateOptions) + calls(validateRange) == 0
+//@   ensures [options-enforced] calls(validateOptions) >= 1 ==> calls(validateOptions, value, opt) == 1 && (ret(validateOptions) != nil ==> result == ret(validateOptions) && calls(validateRange) == 0)
+//@   ensures [range-enforced] calls(validateRange) >= 1 ==> calls(validateRange, value, opt) == 1 && result == ret(validateRange)
+//@   ensures [required-field-accepted-only-after-every-declared-check] result == nil && opt != nil && !opt.Optional ==> (len(opt.Options) > 0 ==> calls(validateOptions) == 1) && (opt.Range != nil ==> calls(validateRange) == 1)
+//@   ensures [set-optional-field-accepted-only-after-every-declared-check] result == nil && opt != nil && opt.Optional && !ret(value.IsZero) ==> (len(opt.Options) > 0 ==> calls(validateOptions) == 1) && (opt.Range != nil ==> calls(validateRange) == 1)
+
+// validateOptions: the text of the value must be one of the declared options.
+//@ func validateOptions
+//@   prop C05
+//@   opaque Sprint, Errorf
+//@   requires opt != nil
+//@   loop 1 invariant -1 <= rangeindex && !found && forall(j, 0, rangeindex + 1, j < len(opt.Options) ==> opt.Options[j] != val)
+//@   ensures [member-accepted] exists(j, 0, len(opt.Options), opt.Options[j] == ret(fmt.Sprint)) ==> result == nil
+//@   ensures [non-member-refused] forall(j, 0, len(opt.Options), opt.Options[j] != ret(fmt.Sprint)) ==> result != nil
+//@   ensures [compared-by-text-of-the-value] calls(fmt.Sprint) == 1 && unbox(arg(fmt.Sprint, 0), []any)[0] == ret(value.Interface)
+
+// getTag: the part of the struct tag before the first ':' (trimmed) names the source; a tag without ':' is no tag.
+//@ func getTag
+//@   prop C05
+//@   opaque TrimSpace
+//@   ensures [tagged-iff-colon] result1 == (ret(strings.Index) >= 0) && arg(strings.Index, 1) == ":"
